@@ -50,6 +50,16 @@ def civil_c05_goals():
            [enforce('civil', 'ct_' + r) for r in ('lt', 'le', 'gt', 'ge', 'eq', 'ne')]
 
 
+C17_LEMMAS = ['lemma_ord_reduce', 'lemma_fd7shift', 'lemma_wd_period', 'lemma_wd_cong', 'lemma_wd_add']
+
+
+def civil_c17_goals():
+    return [plain('civil', 'pl_' + l, timeout=300) for l in C17_LEMMAS] + \
+           [enforce('civil', 'get_weekday', timeout=400), enforce('civil', 'get_yearday'),
+            enforce('civil', 'next_weekday', timeout=300), enforce('civil', 'prev_weekday', timeout=300, no_replace=('ct_day_minus',)),
+            enforce('civil', 'step_day', timeout=300), enforce('civil', 'ct_day_plus', timeout=300)]
+
+
 PROPERTIES = {
     'C04': dict(
         goals=lambda: civil_spec_lemmas() + civil_leaves() + civil_nday() + civil_carry_chain(),
@@ -127,7 +137,7 @@ PROPERTIES['C15'] = dict(
 
 
 # ------------------------------------------------------------------ unit zone
-ZONE_LEMMAS = ['lemma_epoch', 'lemma_secrepr']
+ZONE_LEMMAS = ['lemma_epoch', 'lemma_secrepr', 'lemma_osec_lex']
 
 
 def zone_c01_goals():
